@@ -477,3 +477,36 @@ func init() {
 	mut("C18", "(benign) Missing with a local and early continue", false, "",
 		Edit{ol, "\t\tif txn.Transaction == nil && txn.V2Transaction == nil {\n\t\t\tmissing = append(missing, txn.Hash)\n\t\t}", "\t\tif !(txn.Transaction == nil && txn.V2Transaction == nil) {\n\t\t\tcontinue\n\t\t}\n\t\tmissing = append(missing, txn.Hash)"})
 }
+
+func init() {
+	// ---- C19 ----
+	e4, t4, v4 := "rhp/v4/encoding.go", "rhp/v4/transport.go", "rhp/v4/validation.go"
+	mut("C19", "RPCReadSectorRequest gains nothing but its limit forgets the offset", true, "size-algebra|RPCReadSectorRequest",
+		Edit{e4, "return sizeofPrices + sizeofAccountToken + sizeofHash + 8 + 8\n}\n\nfunc (r *RPCReadSectorResponse)", "return sizeofPrices + sizeofAccountToken + sizeofHash + 8\n}\n\nfunc (r *RPCReadSectorResponse)"})
+	mut("C19", "fund accounts limit sized for balances without the batch factor on deposits", true, "size-algebra|RPCFundAccountsRequest",
+		Edit{e4, "return sizeofHash + 8 + (sizeofAccountDeposit * MaxAccountBatchSize) + sizeofSignature", "return sizeofHash + 8 + (sizeofAccount * MaxAccountBatchSize) + sizeofSignature"})
+	mut("C19", "append sectors limit uses 8 bytes per root", true, "size-algebra|RPCAppendSectorsRequest",
+		Edit{e4, "func (r *RPCAppendSectorsRequest) maxLen() int {\n\treturn reasonableObjectSize + (32 * MaxSectorBatchSize)", "func (r *RPCAppendSectorsRequest) maxLen() int {\n\treturn reasonableObjectSize + (8 * MaxSectorBatchSize)"})
+	mut("C19", "attach pools Validate allows twice the batch size", true, "size-algebra|RPCAttachPoolsRequest",
+		Edit{v4, "} else if uint64(len(req.Attachments)) > MaxAccountBatchSize {", "} else if uint64(len(req.Attachments)) > 2*MaxAccountBatchSize {"})
+	mut("C19", "HostPrices gains an encoded field (sizeof follows, fixed limits do not)", false, "",
+		Edit{e4, "const (\n\treasonableObjectSize         = 10 * 1024", "const (\n\treasonableObjectSize         = 11 * 1024"})
+	mut("C19", "ReadResponse forgets the error allowance", true, "bounded-reads|rhp/v4.ReadResponse:limit",
+		Edit{t4, "return withDecoder(r, (*RPCError)(nil).maxLen()+o.maxLen(), func(d *types.Decoder) {", "return withDecoder(r, o.maxLen(), func(d *types.Decoder) {"})
+	mut("C19", "rhp/v4 withDecoder reads without a limit", true, "bounded-reads|rhp/v4.withDecoder",
+		Edit{t4, "d := types.NewDecoder(io.LimitedReader{R: r, N: int64(maxLen)})", "d := types.NewDecoder(io.LimitedReader{R: r, N: 1 << 62})\n\t_ = maxLen"})
+	mut("C19", "rhp/v2 readMessage no longer compares the frame size with maxLen", true, "bounded-reads|v2-readMessage:size-vs-limit",
+		Edit{"rhp/v2/transport.go", "\t} else if msgSize > maxLen {\n\t\treturn fmt.Errorf(\"message size (%v bytes) exceeds maxLen of %v bytes\", msgSize, maxLen)\n\t} else if msgSize < uint64(t.aead.NonceSize()+t.aead.Overhead()) {", "\t} else if msgSize < uint64(t.aead.NonceSize()+t.aead.Overhead()) {"})
+	mut("C19", "rhp/v4 ReadResponse decodes the error but keeps going", true, "error-delivered|rhp/v4.ReadResponse",
+		Edit{t4, "\t\t\tr.decodeFrom(d)\n\t\t\td.SetErr(r)\n\t\t\treturn\n", "\t\t\tr.decodeFrom(d)\n"})
+	mut("C19", "rhp/v2 readMessage returns the Open error without closing", true, "tamper-closes|rhp/v2.(*Transport).readMessage",
+		Edit{"rhp/v2/transport.go", "\t\tt.setErr(err) // not an I/O error, but still fatal\n\t\treturn err\n\t}\n\td = types.NewBufDecoder(plaintext)", "\t\treturn err\n\t}\n\td = types.NewBufDecoder(plaintext)"})
+	mut("C19", "setErr records the error but leaves the connection open", true, "tamper-closes|rhp/v2.(*Transport).setErr",
+		Edit{"rhp/v2/transport.go", "\t\t\tt.conn.Close()\n\t\t\tt.err = err", "\t\t\tt.err = err"})
+	mut("C19", "gateway ObjectForID maps the relay-header id to the relay-transaction-set object", true, "registries|gateway:idForObject/ObjectForID",
+		Edit{"gateway/encoding.go", "\tcase idSendHeaders:\n\t\treturn new(RPCSendHeaders)", "\tcase idSendHeaders:\n\t\treturn new(RPCSendV2Blocks)"})
+	mut("C19", "validateHeader accepts our own unique ID", true, "handshake|same-unique-id",
+		Edit{"gateway/transport.go", "\t} else if theirs.UniqueID == ours.UniqueID {\n\t\treturn errors.New(\"peer has same unique ID as us\")\n\t}", "\t}"})
+	mut("C19", "Accept does not abort when the peer's header is unacceptable", true, "handshake|gateway.Accept:aborts-on-failure",
+		Edit{"gateway/transport.go", "\tif err := readHeader(conn, ourHeader, &p.Addr, &p.UniqueID); err != nil {\n\t\treturn nil, fmt.Errorf(\"could not read peer's header: %w\", err)\n\t} else if err := writeHeader(conn, ourHeader); err != nil {\n\t\treturn nil, fmt.Errorf(\"could not write our header: %w\", err)\n\t}\n\t// establish mux\n\tvar err error\n\tp.mux, err = mux.AcceptAnonymous(conn)", "\treadHeader(conn, ourHeader, &p.Addr, &p.UniqueID)\n\tif err := writeHeader(conn, ourHeader); err != nil {\n\t\treturn nil, fmt.Errorf(\"could not write our header: %w\", err)\n\t}\n\t// establish mux\n\tvar err error\n\tp.mux, err = mux.AcceptAnonymous(conn)"})
+}
